@@ -10,7 +10,10 @@ the documented extraction variants.
    accept = a valid remote context with exactly the ids of the named source (64-bit ids left-padded)
    and the sampled bit; reject = the caller's context unchanged; either = unchanged or some context
    with non-zero ids (all the statement demands for arbitrary bytes).
-The oracle is always the expectation printed by TLC."""
+3. code -> spec: random byte-level mutations of documented headers and round trips of random contexts
+   run through the real propagators; each header byte abstracted to a token; B3JaegerTrace.tla (TLC,
+   token-level formulation of the same contract, kept consistent by the invariant Agree) decides.
+The oracle is always TLC (BEH expectation or acceptance by the trace spec)."""
 import json
 
 from lib import build, propagation, tlc
@@ -33,7 +36,21 @@ CONSTRAINT Budget
 INVARIANTS %(inv)s
 """
 INVS = ("TypeOK RoundTrip AcceptNonZero Pad64 DebugIsSampled MissingNotSampled SinglePrecedence NothingFromNothing "
-        "ZeroNeverInstalled")
+        "ZeroNeverInstalled Agree")
+TRACE_CFG = """CONSTANTS
+  Dev = {%(dev)s}
+  TidC = {"rand"}
+  SidC = {"rand"}
+  NFlag = 256
+  JRep = {1}
+  MaxFaults = 0
+INIT TInit
+NEXT TNext
+CONSTRAINT Progress
+INVARIANT Report
+POSTCONDITION Accepted
+CHECK_DEADLOCK FALSE
+"""
 MAX_REPORTS = 12
 
 
@@ -49,15 +66,17 @@ def _devset(names):
 
 
 def _k(ctx):
-    return 4 if ctx.tier == "thorough" else 3
+    return 5 if ctx.tier == "thorough" else 3
 
 
 def model_check(ctx):
     """Two TLC runs: ideal (property invariants + coverage + EmitAll = the BEH lines) and as-implemented."""
     k = _k(ctx)
-    c = _cfg(ctx, "mc-dev.cfg", CFG % {"dev": _devset(ALLDEVS), "k": k, "inv": INVS})
+    # the named deviation concerns Inject (and the extraction of what it wrote); the carrier mutation graph
+    # does not depend on Dev and is explored in the ideal run
+    c = _cfg(ctx, "mc-dev.cfg", CFG % {"dev": _devset(ALLDEVS), "k": 0, "inv": INVS})
     r = tlc.tlc(MODULE, c, rundir=ctx.rundir.path, workers=4, timeout_s=900, tag="mc-dev")
-    ctx.add_tlc("%s partition, Dev=as-implemented, <=%d mutated dimensions" % (MODULE, k), r)
+    ctx.add_tlc("%s inject side + round trip, Dev=as-implemented" % MODULE, r)
     tlc.must_ok(r, "%s model checking (as implemented)" % MODULE)
     c = _cfg(ctx, "mc-ideal.cfg", CFG % {"dev": "", "k": k, "inv": INVS + " EmitAll"})
     r = tlc.tlc(MODULE, c, rundir=ctx.rundir.path, workers=4, timeout_s=900, coverage=True, tag="mc-ideal")
@@ -219,7 +238,7 @@ def replay_cases(ctx, exe, cases):
     ctx.traces += len(cases)
     ctx.evaluations += len(cases) * n
     for c in cases:
-        ctx.distinct.add(c["id"])
+        ctx.distinct.add(("beh", c["id"]))
     shown = 0
     for cs in cases:
         r = results.get(cs["id"], {})
@@ -228,6 +247,21 @@ def replay_cases(ctx, exe, cases):
             shown += 1
     if shown == 0:
         ctx.sample({"kind": "TLC (abstract input, expected outcome) line", "case": cases[0], "result": results.get(cases[0]["id"])})
+
+
+def _describe(ev):
+    x = {k: v for k, v in ev.get("x", {}).items() if k in ("out", "remote", "sampled")}
+    if ev.get("e") == "RT":
+        return "round trip (%s) of flags=0x%02x via %s gave %s" % (ev.get("fmt"), ev.get("fl", 0), json.dumps(ev.get("raw")), json.dumps(x))
+    return "Extract(%s) from %s gave %s" % (ev.get("e"), json.dumps(ev.get("raw")), json.dumps(x))
+
+
+def record_validate(ctx, exe):
+    propagation.record_validate(
+        ctx, exe, harness="c16_b3jaeger", module=MODULE + "Trace", cfg_template=TRACE_CFG, alldevs=ALLDEVS,
+        n=60000 if ctx.tier == "thorough" else 9000,
+        need_kinds=("rt-b3s", "rt-b3m", "rt-jg", "b3-accept", "b3-either", "b3-reject", "jg-accept", "jg-either", "jg-reject"),
+        describe=_describe, max_reports=MAX_REPORTS)
 
 
 def run(ctx):
@@ -240,17 +274,32 @@ def run(ctx):
         "X-B3-Sampled 1/0/absent, uber-trace-id 'tid:sid:parent:flags' with parent 0 or 16 hex and flags 00/01; everything else is "
         "'arbitrary bytes' for which the statement only demands unchanged-or-non-zero-ids",
     ]
-    ctx.extra["rule"] = ("states/transitions: TLC over the abstract partition (ideal + as-implemented + generation); a case = one BEH line "
-                         "(abstract input, expected outcome), distinct by construction (distinct TLC states), each concretised n times")
+    ctx.extra["rule"] = ("states/transitions: TLC over the abstract partition (ideal + as-implemented + trace validation); a case = one BEH line "
+                         "(abstract input, expected outcome), distinct by construction (distinct TLC states), each concretised n times; plus one "
+                         "case per recorded execution (distinct seeds; byte-level duplicates possible and not removed)")
     exe = build.harness("c16_b3jaeger", ["c16_b3jaeger.cc"], "asan", need_sdk=False)
+    phases = {}
+    t0 = ctx.timer.s()
     cases = generate(ctx, model_check(ctx))
+    phases["tlc_model_check_and_export_s"] = round(ctx.timer.s() - t0, 1)
+    t0 = ctx.timer.s()
     replay_cases(ctx, exe, cases)
+    phases["replay_s"] = round(ctx.timer.s() - t0, 1)
+    t0 = ctx.timer.s()
+    record_validate(ctx, exe)
+    phases["record_validate_s"] = round(ctx.timer.s() - t0, 1)
+    ctx.extra["phase_wall"] = phases
 
 
 def replay(ctx, path):
     rep = json.load(open(path))["replay"]
+    if "events" in rep:
+        propagation.replay_events(ctx, MODULE + "Trace", TRACE_CFG, ALLDEVS, rep["events"])
+        ctx.states = max(ctx.states, 1)
+        ctx.transitions = max(ctx.transitions, 1)
+        return
     if not rep.get("case"):
-        raise Broken("replay file has no case; re-run the check with the recorded seed")
+        raise Broken("replay file has neither a case nor events; re-run the check with the recorded seed")
     exe = build.harness("c16_b3jaeger", ["c16_b3jaeger.cc"], "asan", need_sdk=False)
     ctx.seed = rep.get("seed", ctx.seed)
     cs = rep["case"]
